@@ -58,7 +58,7 @@ fn leaf(t: &mut Tape) -> V {
         1 => V::True,
         2 => V::False,
         3 => V::Int([0, 1, 2, -1, 7, 2147483647, -2147483648][t.choose(7)]),
-        4 => V::Float([0.0, 1.0, 2.0, 0.5, -1.0, 7.0, 1e10][t.choose(7)]),
+        4 => V::Float([0.0, 1.0, 2.0, 0.5, -1.0, 7.0, 1e10, 1.0000000000000002, 0.30000000000000004, 0.3][t.choose(10)]),
         5 => V::Char(['a', 'b', 'é', '漢', '\0'][t.choose(5)]),
         6 => V::Byte([0u8, 1, 97, 255][t.choose(4)]),
         7 => sym(["a", "b", "c"][t.choose(3)]),
@@ -217,6 +217,9 @@ pub fn small_pool() -> Vec<V> {
         V::Float(1.0),
         V::Float(0.0),
         V::Float(0.5),
+        V::Float(1.0000000000000002),
+        V::Float(0.30000000000000004),
+        V::Float(0.3),
         V::Int(-1),
         V::Char('a'),
         text("a"),
